@@ -238,9 +238,16 @@ type elemInfo struct {
 
 // collect lists the named elements of the pkg / opts packages with their leading comments.
 func collect(image bufimage.Image) map[string]*elemInfo {
-	out := map[string]*elemInfo{}
+	var fds []*descriptorpb.FileDescriptorProto
 	for _, f := range image.Files() {
-		fd := f.FileDescriptorProto()
+		fds = append(fds, f.FileDescriptorProto())
+	}
+	return collectFiles(fds)
+}
+
+func collectFiles(fds []*descriptorpb.FileDescriptorProto) map[string]*elemInfo {
+	out := map[string]*elemInfo{}
+	for _, fd := range fds {
 		if fd.GetPackage() != "pkg" && fd.GetPackage() != "opts" {
 			continue
 		}
